@@ -1,4 +1,4 @@
-(* FloatOps.v — the IEEE-754 binary64 instance of [Ops] on Coq's primitive floats, exact bit
+(* FloatInst.v — the IEEE-754 binary64 instance of [Ops] on Coq's primitive floats, exact bit
    patterns of floats, and byte images of serialised states.  Definitions only. *)
 From Coq Require Import Floats Uint63 SpecFloat.
 From TA Require Import Base Model Generic.
